@@ -373,6 +373,29 @@ func emitNonrevAttacks(g *Rng, kp *KeyPair, ir *issuerRev, cred *gabi.Credential
 		setAt(t2, lp, I(new(big.Int).Add(leafInt(t2, lp), bi(1))))
 		emit(nrOp(kp, t2, ctx, nonce, "nr-alter1", "reject"))
 	}
+	// members of the non-revocation part missing, null or empty: a refusal, never a crash
+	for _, name := range []string{"responses", "C_r", "C_u", "sacc"} {
+		for _, how := range []string{"absent", "null"} {
+			t2 := cloneTree(tree).(T)
+			nr := t2["nonrev_proof"].(T)
+			if how == "absent" {
+				delete(nr, name)
+			} else {
+				nr[name] = nil
+			}
+			emit(nrOp(kp, t2, ctx, nonce, "nr-member-"+how, "reject|decode-error").with("fkey", "C11/nr-member-missing"))
+		}
+	}
+	if rs, ok := tree["nonrev_proof"].(T)["responses"].(T); ok {
+		t2 := cloneTree(tree).(T)
+		t2["nonrev_proof"].(T)["responses"] = T{}
+		emit(nrOp(kp, t2, ctx, nonce, "nr-responses-empty", "reject|decode-error").with("fkey", "C11/nr-member-missing"))
+		for k := range rs {
+			t3 := cloneTree(tree).(T)
+			delete(t3["nonrev_proof"].(T)["responses"].(T), k)
+			emit(nrOp(kp, t3, ctx, nonce, "nr-response-absent", "reject|decode-error").with("fkey", "C11/nr-member-missing"))
+		}
+	}
 	// the prover-chosen group elements moved by multiples of the modulus: the same residue, another
 	// number - it is the number as received that the challenge binds
 	for _, name := range []string{"C_r", "C_u"} {
